@@ -127,6 +127,18 @@ def toc_list_part(ctx, seqs):
         why = check_toc_html(real, s)
         if why:
             ctx.fail("toc-list:" + why.split(" ")[0], "render_toc_ul on levels %s: %s" % (s, why), {"kind": "list", "levels": s, "out": real})
+        # the documented parameter type is Iterable: tuples, iterators, generators and filter/map objects must give the same list
+        items = [(lv, "k%d" % i, "t%d" % i) for i, lv in enumerate(s)]
+        if len(s) <= 12:
+            for nm, mk in (("tuple", lambda: tuple(items)), ("iter", lambda: iter(items)), ("generator", lambda: (it for it in items)), ("filter", lambda: filter(None, items)),
+                           ("map", lambda: map(lambda it: it, items))):
+                try:
+                    alt = render_toc_ul(mk())
+                except Exception as e:
+                    alt = "EXC %r" % e
+                if alt != real:
+                    ctx.fail("toc-list:iterable:" + nm, "render_toc_ul(%s of the items for levels %s) gives %r, the list gives %r" % (nm, s, alt[:120], real[:120]), {"kind": "list", "levels": s, "out": alt, "iterable": nm})
+                    break
     for got in outs[len(seqs):]:
         if got != "ok":
             ctx.broken.append("model self-check: checkEvs(renderToc) ≠ ancSpec evaluated in the driver")
@@ -278,12 +290,61 @@ def directive_part(ctx, n_docs):
     return n
 
 
+def include_part(ctx):
+    """documents assembled with the include directive (the same file may be included more than once): ids stay unique, in
+    document order, and every TOC entry links to a heading that carries its id"""
+    import mistune, tempfile, shutil, os
+    from mistune.toc import add_toc_hook
+    from mistune.directives import FencedDirective, RSTDirective, Include, TableOfContents
+    n = 0
+    tmp = tempfile.mkdtemp(prefix="verif-c15-")
+    try:
+        def w(name, text):
+            with open(os.path.join(tmp, name), "w", encoding="utf-8") as f:
+                f.write(text)
+        w("shared.md", "## Shared notice\n\ntext\n\n### Details\n\nmore\n")
+        w("other.md", "# Other\n\n## Sub *em*\n")
+        for style in ("rst", "fenced"):
+            inc = (lambda f: ".. include:: %s\n\n" % f) if style == "rst" else (lambda f: "```{include} %s\n```\n\n" % f)
+            toc = ".. toc::\n   :max-level: 3\n\n" if style == "rst" else "```{toc}\n:max-level: 3\n```\n\n"
+            D = RSTDirective if style == "rst" else FencedDirective
+            for mode in ("hook", "directive"):
+                body = "# Main\n\n" + inc("shared.md") + "## Middle\n\n" + inc("shared.md") + inc("other.md") + inc("shared.md") + "## End\n"
+                w("page.md", (toc if mode == "directive" else "") + body)
+                md = mistune.create_markdown(plugins=[D([Include()] + ([TableOfContents()] if mode == "directive" else []))])
+                if mode == "hook":
+                    add_toc_hook(md, 1, 3)
+                try:
+                    html, state = md.read(os.path.join(tmp, "page.md"))
+                except Exception as e:
+                    ctx.fail("toc-include:exception", "reading a page with includes raised %r" % e, {"kind": "include", "style": style, "mode": mode}); continue
+                n += 1
+                ids = re.findall(r'<h[1-6] id="([^"]*)"', html)
+                nheads = len(re.findall(r"<h[1-6][ >]", html))
+                rep = {"kind": "include", "style": style, "mode": mode, "html": html[:1500]}
+                if ids != ["toc_%d" % (i + 1) for i in range(len(ids))] or len(ids) != nheads:
+                    ctx.fail("toc-include:ids", "heading ids of a page that includes the same file several times are %r (%d headings): not unique ids in document order" % (ids, nheads), rep)
+                    continue
+                if mode == "hook":
+                    from mistune.toc import render_toc_ul
+                    links = re.findall(r'<a href="#([^"]*)">', render_toc_ul(state.env.get("toc_items", [])))
+                else:
+                    blk = re.search(r'<details class="toc".*?</details>', html, re.S)
+                    links = re.findall(r'<a href="#([^"]*)">', blk.group(0)) if blk else None
+                if links != ids:
+                    ctx.fail("toc-include:links", "TOC links %r do not match the heading ids %r" % (links, ids), rep)
+    finally:
+        shutil.rmtree(tmp, ignore_errors=True)
+    return n
+
+
 def run(ctx):
     ctx.broken += common.proof_stage(ctx, THEOREMS)
     seqs = level_seqs(ctx)
     toc_list_part(ctx, seqs)
     nh = hook_part(ctx, 400 if ctx.quick() else 4000)
     nd = directive_part(ctx, 300 if ctx.quick() else 3000)
+    nd += include_part(ctx)
     if ctx.broken and not ctx.failures:
         ctx.notes.append("search mode entered")
         toc_list_part(ctx, level_seqs(ctx, big=True))
